@@ -48,7 +48,9 @@ func (l *Lab) Wipe() {
 	}
 }
 
-var subNames = []string{"b", "c d", "x1", "zz", "Sub10", "Sub2", "b1", "ü", "v1", "v01", "1.0", "1.00", "v1.2", "in.json", "50%"}
+var subNames = []string{"b", "c d", "x1", "zz", "Sub10", "Sub2", "b1", "ü", "v1", "v01", "1.0", "1.00", "v1.2", "in.json", "50%",
+	// route- and path-like names: their own "/" adds levels, some of them empty, "." or ".."
+	"GET /users/", "x//y", "./rel", "a/../b", "https://h/v1"}
 
 func tName(s string) string { return strings.ReplaceAll(s, " ", "_") }
 
@@ -240,10 +242,17 @@ func (l *Lab) Gen(r *rand.Rand, o LabOpts) *LabCase {
 		}
 		if len(cands) > 0 {
 			p := cands[r.IntN(len(cands))]
-			parent := p[:strings.LastIndex(p, "/")]
-			leaf := p[strings.LastIndex(p, "/")+1:]
+			// the parent is the node that lists p among its sub-tests (a name may contain "/" itself)
+			parent, leaf := "", ""
+			for q, qn := range lc.Scenario.Nodes {
+				for _, sn := range qn.Subs {
+					if q+"/"+tName(sn) == p && len(q) > len(parent) {
+						parent, leaf = q, tName(sn)
+					}
+				}
+			}
 			sib := leaf + []string{"-2", ".1", "#x", "+"}[r.IntN(4)]
-			if lc.Scenario.Nodes[parent+"/"+sib] == nil {
+			if parent != "" && lc.Scenario.Nodes[parent+"/"+sib] == nil {
 				lc.Scenario.Nodes[parent].Subs = append(lc.Scenario.Nodes[parent].Subs, sib)
 				lc.Scenario.Nodes[parent+"/"+sib] = &Node{Calls: []Call{{API: "snap", Val: "sibling of a skipped test"}}}
 				lc.SkipNodes[p] = "Skip"
